@@ -41,6 +41,9 @@ func c15Configs() []*cfg.Config {
 		{Meta: meta(), Params: []cfg.KV{{K: "p0", V: S("v")}, {K: "p1", V: cfg.Int(1)}},
 			Services: []cfg.Service{{Name: "s0", Todo: cfg.P(true), Tags: []cfg.Tag{{Name: "t"}}}, {Name: "s1", Constructor: cfg.P("pa.New"), Args: []cfg.Val{S("@s0"), S("!tagged t")}}},
 			Decorators: []cfg.Decorator{{Tag: "t", Decorator: "pa.DecSame", Args: []cfg.Val{S("%p1%"), S("%p0%")}}, {Tag: "u", Decorator: "pa.DecSame"}}},
+		// todo takes any number of arguments; the first one is the message
+		{Meta: meta(), Params: []cfg.KV{{K: "p0", V: S(`%todo("set p0 first", "then p1", "docs: OverrideParam")%`)}, {K: "p1", V: S(`%p0% / %todo("", "not the message")%`)}},
+			Services: []cfg.Service{{Name: "s0", Constructor: cfg.P("pa.New"), Args: []cfg.Val{S("%p0%")}}, {Name: "s1", Constructor: cfg.P("pa.New"), Args: []cfg.Val{S("@s0"), S("%p1%")}}}},
 		{Meta: meta(), Params: []cfg.KV{{K: "p0", V: S("%todo()%")}, {K: "p1", V: cfg.Int(1)}},
 			Services: []cfg.Service{{Name: "s0", Constructor: cfg.P("pa.New"), Args: []cfg.Val{S("%p0%")}, Scope: cfg.P("contextual")}, {Name: "s1", Constructor: cfg.P("pa.New"), Args: []cfg.Val{S("@s0"), S("%p1%")},
 				Fields: []cfg.KV{{K: "F1", V: S("%p0%")}}}}},
@@ -65,7 +68,7 @@ func c15Alphabet() []probe.Op {
 
 func checkC15(c *Ctx) error {
 	maxLen := c.Pick(3, 5)
-	c.Rule = fmt.Sprintf("(1) histories: every sequence of length <=%d over {GetParam p0/p1, Get s0/s1, GetInContext s1 in two contexts, OverrideParam p0/p1, OverrideService s0 (plain, tagged, contextual) / s1} on eight small configurations (the real service overriding a todo service carries a tag) (param->param->service->service chains with todo parameters/services at each position, tags, a decorator, explicit scopes), plus seeded longer histories; each history runs on a fresh generated container and is compared with the reference container; results that touch a cache entry filled before an override are recorded but not judged (the statement only speaks about dependants not yet constructed); function invocation counters are read right after construction (laziness) and at the end; (2) every subset of definitions marked todo is run through the real binary and must be accepted; (3) seeded configurations in which 1-3 services are switched off with `todo: true` while keeping a definition full of dangling, self- and neighbour references must be accepted. distinct = distinct (configuration, history); non-trivial = history contains >=1 override or touches a todo definition", maxLen)
+	c.Rule = fmt.Sprintf("(1) histories: every sequence of length <=%d over {GetParam p0/p1, Get s0/s1, GetInContext s1 in two contexts, OverrideParam p0/p1, OverrideService s0 (plain, tagged, contextual) / s1} on nine small configurations (the real service overriding a todo service carries a tag) (param->param->service->service chains with todo parameters/services at each position, tags, a decorator, explicit scopes), plus seeded longer histories; each history runs on a fresh generated container and is compared with the reference container; results that touch a cache entry filled before an override are recorded but not judged (the statement only speaks about dependants not yet constructed); function invocation counters are read right after construction (laziness) and at the end; (2) every subset of definitions marked todo is run through the real binary and must be accepted; (3) seeded configurations in which 1-3 services are switched off with `todo: true` while keeping a definition full of dangling, self- and neighbour references must be accepted. distinct = distinct (configuration, history); non-trivial = history contains >=1 override or touches a todo definition", maxLen)
 	c.Assumptions = []string{"reference container engine/ref with caches", "OverrideParam/OverrideService definitions are built by the probe from fixture constructors"}
 	lab, err := probe.NewLab(c.W)
 	if err != nil {
